@@ -331,7 +331,7 @@ struct EnvEngine : Engine {
 			p.par["needs_locale_file"] = "1";
 		} else {
 			/* unspecified fields are determined by --base alone: every tool that takes --base */
-			std::string base = r.chance(1, 2) ? rdate(r) : rdt(r);
+			std::string base = r.chance(1, 3) ? inv::rand_base(r) : r.chance(1, 2) ? rdate(r) : rdt(r);
 			unsigned b = (unsigned)r.below(14);
 			int m = (int)r.range(1, 12), d = (int)r.range(1, 28), m2 = (int)r.range(1, 12), d2 = (int)r.range(1, 28);
 			char v[32], v2[32];
@@ -598,7 +598,8 @@ struct EnvEngine : Engine {
 			if (!A)
 				A = find_loc("de_DE") ? find_loc("de_DE") : &L[0];
 			p.par["A"] = A->name;
-			p.par["B"] = L[r.below(L.size())].name;
+			/* now and then the same locale in both directions: the second lookup must find it again */
+			p.par["B"] = r.chance(1, 6) ? A->name : L[r.below(L.size())].name;
 			p.par["y"] = std::to_string(r.range(1990, 2030));
 			p.par["m"] = std::to_string(r.range(1, 12));
 			p.par["d"] = std::to_string(r.range(1, 28));
